@@ -422,6 +422,20 @@ func Domain(dt datatype.DataType, wide bool) []AV {
 				}
 			}
 		}
+		// every size class of the vint encoding: zig-zag values of exactly 7n-1, 7n and 7n+1
+		// significant bits (n = 1..9), positive and negative, one component at a time
+		for bits := uint(1); bits <= 63; bits++ {
+			if r := bits % 7; r != 6 && r != 0 && r != 1 {
+				continue
+			}
+			// zig-zag of v >= 0 is 2v: v = 2^(bits-2) has `bits-1+1` ... pick by magnitude directly
+			for _, v := range []int64{1 << (bits - 1), -(1 << (bits - 1)), (1 << (bits - 1)) - 1, -(1 << (bits - 1)) - 1} {
+				out = append(out, AV{Kind: 'U', Ns: v})
+				if v >= math.MinInt32 && v <= math.MaxInt32 {
+					out = append(out, AV{Kind: 'U', Mo: v}, AV{Kind: 'U', Da: v})
+				}
+			}
+		}
 	case primitive.DataTypeCodeInet:
 		out = []AV{{Kind: 'N', B: []byte{127, 0, 0, 1}}, {Kind: 'N', B: []byte{0, 0, 0, 0}}, {Kind: 'N', B: net.ParseIP("2001:db8::1")}, {Kind: 'N', B: net.ParseIP("::")}}
 	case primitive.DataTypeCodeUuid, primitive.DataTypeCodeTimeuuid:
